@@ -22,17 +22,25 @@ KeyTexts     == {<<"a">>, <<"1","e","3">>, <<"1">>} \cup (IF Depth2 THEN {<<"t",
 Color  == TEnum(<<<<"R","E","D">>, <<"G","R","E","E","N">>>>)
 Color2 == TEnum(<<<<"A">>, <<"B">>>>)
 RPath  == TReg("Rpath")    RTd == TReg("Rtd")    RUuid == TReg("Ruuid")    RCplx == TReg("Rcomplex")
-RegTexts(name) == CASE name = "Rpath" -> {<<"/","x">>, <<"a","/","b">>, <<"N","o","n","e">>, <<"1","e","3">>}
-                    [] name = "Rtd"   -> {<<"0",":","0","0",":","0","1">>, <<"1",":","0","2",":","0","3">>}
+RRange == TReg("Rrange")   RDec == TReg("Rdec")  RBytes == TReg("Rbytes")  RBArr == TReg("Rbytearray")  RPLike == TReg("Rpathlike")
+\* what a config file can hold for a registered type: every branch of its serializer / deserializer
+RegTexts(name) == CASE name = "Rpath" -> {<<"/","x">>, <<"a","/","b">>, <<"N","o","n","e">>}
+                    [] name = "Rpathlike" -> {<<"/","x">>, <<"a"," ","b">>}
+                    [] name = "Rtd"   -> {<<"0",":","0","0",":","0","1">>, <<"1",":","0","2",":","0","3">>, <<"1"," ","d","a","y",","," ","2",":","0","3",":","0","4">>, <<"-","1"," ","d","a","y",","," ","2","3",":","5","9",":","5","9">>, <<"2"," ","d","a","y","s",","," ","0",":","0","0",":","0","0">>, <<"0",":","0","0",":","0","1",".","5","0","0","0","0","0">>}
                     [] name = "Ruuid" -> {<<"1","2","3","4","5","6","7","8","-","1","2","3","4","-","5","6","7","8","-","1","2","3","4","-","5","6","7","8","1","2","3","4","5","6","7","8">>}
+                    [] name = "Rrange" -> {<<"r","a","n","g","e","(","5",")">>, <<"r","a","n","g","e","(","2",","," ","5",")">>, <<"r","a","n","g","e","(","0",","," ","1","0",","," ","2",")">>, <<"r","a","n","g","e","(","1",","," ","1","0",","," ","3",")">>, <<"r","a","n","g","e","(","1","0",","," ","0",","," ","-","2",")">>, <<"r","a","n","g","e","(","0",")">>, <<"r","a","n","g","e","(","5",","," ","1",")">>, <<"r","a","n","g","e","(","0",","," ","5",","," ","1",")">>, <<"r","a","n","g","e","(","-","3",",","3",")">>}
+                    [] name = "Rdec"  -> {<<"0",".","5">>, <<"3">>, <<"-","2",".","2","5">>, <<"0",".","1">>}
+                    [] name \in {"Rbytes", "Rbytearray"} -> {<<"a","G","k","=">>, << >>, <<"A","A","E","C">>}
                     [] OTHER          -> {<<"(","1","+","2","j",")">>, <<"3","j">>}
 LitT   == TLiteral(<<Str(<<"a">>), Str(<<"1","e","3">>), IntV(<<"1">>), NullV>>)
 DC1    == TDC(<< <<<<"a">>, TInt, IntV(<<"1">>)>>, <<<<"s">>, TStr, Str(<<"x">>)>> , <<<<"o">>, TOpt(TStr), NullV>> >>)
+DCR    == TDC(<< <<<<"r">>, RRange, RegV("Rrange", <<"r","a","n","g","e","(","0",","," ","4",","," ","2",")">>)>>, <<<<"t">>, TOpt(RTd), NullV>> >>)
 \* TLC orders the fields of a record by the order in which it first met their names, so a set that holds records of
 \* different kinds may compare a text with a sequence of records and abort.  Every set of types / values below therefore
 \* holds PAIRS <<ToString(x), x>>: the string decides the comparison.
 Tag(x) == <<ToString(x), x>>
 Untag(S) == {p[2] : p \in S}
+RegNumbers(name) == IF name = "Rdec" THEN {Tag(Flt(<<"0",".","5">>)), Tag(IntV(<<"3">>)), Tag(Flt(<<"2",".","0">>))} ELSE {}     \* a Decimal may also be written as a yaml number
 LeavesSeq  == <<TStr, TInt, TFloat, TBool, Color, LitT>>
 ULeavesSeq == <<TStr, TInt, TFloat, TBool, Color>>
 SeqSet(s) == {Tag(s[i]) : i \in 1..Len(s)}
@@ -47,6 +55,10 @@ Depth1 == {Tag(TOpt(LeavesSeq[i])) : i \in 1..Len(LeavesSeq)}
      \* registered types serialised with str(): None ITEMS inside containers must be written null, not 'None'
      \cup SeqSet(<<RPath, TOpt(RPath), TList(TOpt(RPath)), TDict(TStr, TOpt(RTd)), TTuple(<<TOpt(RUuid), TInt>>), TList(TOpt(RCplx)), TList(RTd), TDict(TStr, TOpt(RPath)),
                   TTuple(<<TOpt(RTd), TOpt(RPath)>>)>>)
+     \* every registered type at top level, under Optional, as a list item and as a dict value; range / timedelta also in a dataclass
+     \cup UNION {SeqSet(<<r, TOpt(r)>>) : r \in {RRange, RTd, RDec, RBytes, RBArr, RPLike, RUuid, RCplx}}
+     \cup SeqSet(<<TList(RRange), TList(TOpt(RRange)), TDict(TStr, RRange), TTuple(<<RRange, TInt>>), TList(RDec), TDict(TStr, TOpt(RDec)), TList(RBytes),
+                  TList(TOpt(RTd)), TOpt(DCR), TList(DCR)>>)
 Depth2Types == SeqSet(<<TOpt(TList(TStr)), TOpt(TList(TInt)), TList(TOpt(TStr)), TList(TOpt(TInt)), TDict(TStr, TList(TStr)), TList(TDict(TStr, TInt)),
                 TUnion(<<TInt, TList(TInt)>>), TUnion(<<TStr, TList(TStr)>>), TUnion(<<TList(TStr), TStr>>), TList(TTuple(<<TInt, TStr>>)),
                 TDict(TStr, TUnion(<<TInt, TStr>>)), TDict(TStr, TOpt(TFloat)), TOpt(TDict(TStr, TStr)), TList(TUnion(<<TStr, TFloat>>)),
@@ -68,7 +80,7 @@ InputsOf(t) ==
     [] t.c = "float" -> {Tag(Flt(r)) : r \in FloatReprs} \cup {Tag(IntV(<<"1">>))}
     [] t.c = "bool"  -> {Tag(BoolV(TRUE)), Tag(BoolV(FALSE))}
     [] t.c = "none"  -> {Tag(NullV)}
-    [] t.c = "reg"   -> {Tag(Str(s)) : s \in RegTexts(t.p[1])}
+    [] t.c = "reg"   -> {Tag(Str(s)) : s \in RegTexts(t.p[1])} \cup RegNumbers(t.p[1])
     [] t.c = "enum"  -> {Tag(Str(t.p[i])) : i \in 1..Len(t.p)} \cup {Tag(Str(<<"a","b","c">>))}
     [] t.c = "literal" -> {Tag(t.p[i]) : i \in 1..Len(t.p)} \cup {Tag(Str(<<"z","z">>)), Tag(Str(<<"1">>))}
     [] t.c = "union" -> UNION {InputsOf(t.p[i]) : i \in 1..Len(t.p)}
@@ -80,6 +92,10 @@ InputsOf(t) ==
          LET keys == IF t.p[1].c = "int" THEN {Tag(Str(<<"1">>)), Tag(Str(<<"2">>)), Tag(IntV(<<"7">>))} ELSE {Tag(Str(s)) : s \in KeyTexts} IN
          {Tag(DictV(<< >>))} \cup {Tag(DictV(<< <<key[2], a[2]>> >>)) : key \in keys, a \in InputsOf(t.p[2])}
          \cup {Tag(DictV(<< <<Str(IF t.p[1].c = "int" THEN <<"1">> ELSE <<"a">>), q[1][2]>>, <<Str(IF t.p[1].c = "int" THEN <<"2">> ELSE <<"1","e","3">>), q[2][2]>> >>)) : q \in Pairs(Few(t.p[2]))}
+    [] t.c = "dc" /\ t.p[1][1] = <<"r">> ->
+         {Tag(DictV(<< >>))}
+         \cup {Tag(DictV(<< <<Str(<<"r">>), Str(s)>> >>)) : s \in {<<"r","a","n","g","e","(","0",","," ","1","0",","," ","2",")">>, <<"r","a","n","g","e","(","3",")">>}}
+         \cup {Tag(DictV(<< <<Str(<<"r">>), Str(<<"r","a","n","g","e","(","2",","," ","5",")">>)>>, <<Str(<<"t">>), Str(s)>> >>)) : s \in {<<"1"," ","d","a","y",","," ","2",":","0","3",":","0","4">>, <<"0",":","0","0",":","0","1">>}}
     [] t.c = "dc" ->
          {Tag(DictV(<< >>)), Tag(DictV(<< <<Str(<<"a">>), IntV(<<"2">>)>> >>)), Tag(DictV(<< <<Str(<<"z","z">>), IntV(<<"2">>)>> >>))}
          \cup {Tag(DictV(<< <<Str(<<"a">>), IntV(<<"2">>)>>, <<Str(<<"s">>), Str(s)>> >>)) : s \in {<<"y">>, <<"1","e","3">>, <<".","_","1">>}}
